@@ -527,3 +527,25 @@ Proof.
   destruct exKQb_hyps as (A & B & C & D & E).
   repeat (split; [assumption|]). split; [exact exKQb_R345|exact good_pair_ex].
 Qed.
+
+(* [block_law2] written out (for Props/C12_rotation2.v) *)
+Lemma block_law2_unfold {F : Type} (K : Fops F) (R : @mat3 F) (la lb : nat)
+  (ent ent' : shell F -> shell F -> nat -> nat -> nat -> nat -> F) :
+  block_law2 K R la lb ent ent' <->
+  (forall sa sb : shell F,
+     s_l sa = la -> s_l sb = lb -> s_comps sa = [] -> s_comps sb = [] -> wf_coeffs sa -> wf_coeffs sb ->
+     (forall a b : F, In a (s_exps sa) -> In b (s_exps sb) -> fadd K a b <> f0 K) ->
+     forall ma mb ja jb : nat, (ma < nseg sa)%nat -> (mb < nseg sb)%nat ->
+       (ja < length (default_comps la))%nat -> (jb < length (default_comps lb))%nat ->
+       fmul K (fmul K (dfnorm K (cmpd la ja)) (dfnorm K (cmpd lb jb))) (ent sa sb ma ja mb jb)
+       = FNum.fsum K (map (fun ia : nat => FNum.fsum K (map (fun ib : nat =>
+           fmul K (fmul K (fmul K (fmul K (rep_mat K R (cmpd la ia) (cmpd la ja))
+                                          (rep_mat K R (cmpd lb ib) (cmpd lb jb)))
+                                  (dfnorm K (cmpd la ia))) (dfnorm K (cmpd lb ib)))
+             (ent' (rot_shell K R sa) (rot_shell K R sb) ma ia mb ib))
+           (seq 0 (length (default_comps lb))))) (seq 0 (length (default_comps la))))).
+Proof.
+  unfold block_law2, good_pair. split.
+  - intros H sa sb H1 H2 H3 H4 H5 H6 H7. apply H. repeat split; assumption.
+  - intros H sa sb (H1 & H2 & H3 & H4 & H5 & H6 & H7). now apply H.
+Qed.
